@@ -104,12 +104,11 @@ structure RestoreSpec (m s : M) : Prop where
 
 local macro "restore_tac" : tactic => `(tactic|
   (constructor
-   · simp [exec, exec1, swapRestore, swapWcRestore]; omega
-   · simp [exec, exec1, swapRestore, swapWcRestore]
-   · simp [exec, exec1, swapRestore, swapWcRestore]
-   all_goals try (simp [exec, exec1, swapRestore, swapWcRestore]; congr 1; omega)
-   · simp [exec, exec1, swapRestore, swapWcRestore, calleeSaved]
-     intro r h1 h2 h3 h4 h5 h6 h7; simp [h1, h2, h3, h4, h5, h6, h7]))
+   case others =>
+     simp [exec, exec1, swapRestore, swapWcRestore, calleeSaved]
+     intro r h1 h2 h3 h4 h5 h6 h7; simp [h1, h2, h3, h4, h5, h6, h7]
+   case rsp => simp [exec, exec1, swapRestore, swapWcRestore]; omega
+   all_goals (simp [exec, exec1, swapRestore, swapWcRestore] <;> try (congr 1; omega))))
 
 theorem restore_effect_swap (env : Env) (m : M) : RestoreSpec m (exec env m swapRestore) := by
   restore_tac
@@ -123,6 +122,36 @@ theorem restore_effect (S : Suspend) (hS : S ∈ suspendKinds) (env : Env) (m : 
   rcases hS with rfl | rfl
   · exact restore_effect_swap env m
   · exact restore_effect_swapWc env m
+
+@[simp] theorem callEntry_rsp (env : Env) (m : M) : (callEntry env m).reg .rsp = m.reg .rsp - 8 := by
+  simp [callEntry]
+theorem callEntry_reg (env : Env) (m : M) (r : Reg) (h : r ≠ .rsp) : (callEntry env m).reg r = m.reg r := by
+  simp [callEntry, h]
+@[simp] theorem callEntry_mem (env : Env) (m : M) (a : Int) :
+    (callEntry env m).mem a = if a = m.reg .rsp - 8 then env.retAddr else m.mem a := by
+  simp [callEntry]
+@[simp] theorem callEntry_pc (env : Env) (m : M) : (callEntry env m).pc = m.pc := by
+  simp [callEntry]
+
+/-- `call; pop %rax; jmp *%rax` executed with `rsp = T` by a SysV callee on the stack `[lo, T)` -/
+theorem call_tail (env : Env) (m : M) (lo : Int) (W : Int → Prop)
+    (hsys : ObeysSysV env.callee lo W) (T : Int) (hT : m.reg .rsp = T) (hlo : lo + 8 ≤ T) :
+    let s := exec1 env (exec1 env (env.callee (callEntry env m)) (.pop .rax)) (.jmpReg .rax)
+    s.reg .rsp = T + 8 ∧ s.pc = s.mem T ∧
+    (∀ a, s.mem a ≠ m.mem a → (lo ≤ a ∧ a < T) ∨ W a) := by
+  subst hT
+  have hr := hsys.ret (callEntry env m)
+  have hf := hsys.frame (callEntry env m)
+  simp only [callEntry_rsp, callEntry_mem] at hr hf
+  have hr' : (env.callee (callEntry env m)).reg .rsp = m.reg .rsp := by omega
+  simp [exec1, hr']
+  intro a ha
+  by_cases h8 : a = m.reg .rsp - 8
+  · left; omega
+  · have := hf a (by simpa [h8] using ha)
+    rcases this with h | h
+    · left; omega
+    · right; exact h
 
 /-- effect of a switch half: rsp comes from the target context word, the callback (if any) runs
     with rsp 8 below the target rsp, then the target's resume address is popped and jumped to -/
@@ -139,29 +168,55 @@ theorem switch_effect (K : Resume) (hK : K ∈ resumeKinds) (env : Env) (m : M) 
   · intro T s hlo
     have e : s = exec1 env (exec1 env (env.callee (callEntry env (setReg m .rsp T))) (.pop .rax)) (.jmpReg .rax) := by
       simp [s, T, exec, exec1, swapWcSwitch, swapWcTo]
-    have hr := hsys.ret (callEntry env (setReg m .rsp T))
-    have hf := hsys.frame (callEntry env (setReg m .rsp T))
-    simp [callEntry] at hr hf
     rw [e]
-    simp [exec1, hr]
-    intro a ha
-    by_cases h8 : a = T - 8
-    · left; omega
-    · have := hf a (by simpa [h8] using ha)
-      omega
+    exact call_tail env (setReg m .rsp T) lo W hsys T (by simp) hlo
   · simp [exec, exec1, setSwitch, setTo]
   · intro T s hlo
     have e : s = exec1 env (exec1 env (env.callee (callEntry env (setReg m .rsp T))) (.pop .rax)) (.jmpReg .rax) := by
       simp [s, T, exec, exec1, setWcSwitch, setWcTo]
-    have hr := hsys.ret (callEntry env (setReg m .rsp T))
-    have hf := hsys.frame (callEntry env (setReg m .rsp T))
-    simp [callEntry] at hr hf
     rw [e]
-    simp [exec1, hr]
-    intro a ha
-    by_cases h8 : a = T - 8
-    · left; omega
-    · have := hf a (by simpa [h8] using ha)
-      omega
+    exact call_tail env (setReg m .rsp T) lo W hsys T (by simp) hlo
+
+/-- registers an instruction list writes (besides rsp) -/
+def written : List Instr → List Reg
+  | [] => []
+  | .pop r :: is => r :: written is
+  | .leaLabel r _ :: is => r :: written is
+  | _ :: is => written is
+
+/-- registers a SysV callee may destroy -/
+def callerSaved : List Reg := [.rax, .rcx, .rdx, .rsi, .rdi, .r8, .r9, .r10, .r11]
+
+/-! ## a concrete callee / environment for the non-vacuity examples -/
+
+/-- a callee that uses its frame, destroys caller-saved registers and returns -/
+def exCallee (m : M) : M :=
+  let sp := m.reg .rsp
+  if 1000 ≤ sp then
+    setReg (setReg (setReg (setMem (setMem m (sp - 8) 777) (sp - 64) 888) .rax 999) .rcx 998) .rsp (sp + 8)
+  else setReg m .rsp (sp + 8)
+
+theorem exCallee_sysv : ObeysSysV exCallee 0 (fun _ => False) := by
+  constructor
+  · intro m r hr
+    simp only [calleeSaved, List.mem_cons, List.not_mem_nil, or_false] at hr
+    unfold exCallee
+    rcases hr with rfl | rfl | rfl | rfl | rfl | rfl <;> (simp only []; split <;> simp)
+  · intro m
+    unfold exCallee
+    simp only []; split <;> simp
+  · intro m a
+    unfold exCallee
+    simp only []
+    split
+    · simp; intro h
+      by_cases h1 : a = m.reg .rsp - 64
+      · omega
+      · by_cases h2 : a = m.reg .rsp - 8
+        · omega
+        · simp [h1, h2] at h
+    · simp
+
+def exEnv : Env := { label := fun n => 4000000 + n, retAddr := 4100000, callee := exCallee }
 
 end MythVerif.X86
